@@ -66,7 +66,7 @@ static size_t
 xstrlcpy(char *restrict dst, const char *src, size_t dsz)
 {
 	size_t ssz = strlen(src);
-	if (ssz > dsz) {
+	if (ssz >= dsz) {
 		ssz = dsz - 1U;
 	}
 	memcpy(dst, src, ssz);
